@@ -11,6 +11,7 @@ from __future__ import annotations
 
 import itertools as itt
 import json
+import os
 import random
 from fractions import Fraction as Fr
 
@@ -207,6 +208,8 @@ def structured_cases(rng: random.Random, scale: int = 1):
 
 
 def cases(rng: random.Random, tier: str):
+    if os.environ.get("VERIF_EXPR_FAST_SEARCH") == "1":
+        tier = "quick"      # tools/mutate_expr.py only: keeps the runner's extended search at the size of the quick stream
     out = _load_corpus()
     out += structured_cases(rng, 1 if tier == "quick" else 4)
     out += random_cases(rng, 6000 if tier == "quick" else 70000)
